@@ -3,7 +3,7 @@
    ends, for every segmentation) is C07 / C06; here: the framing decision and the grammar of the head. *)
 From Coq Require Import List NArith ZArith Bool.
 From GV Require Import Base.Bytes Base.Scan Base.PyStr Gen.GenParser Model.Parser Spec.Rfc9112
-     Proof.Framing Proof.HeadGrammar Proof.HeadSound Proof.ParserHead Proof.ChunkedDecode Proof.ChunkedGrammar Proof.ParserRun Proof.ChunkedReader Proof.BodyFileThm Proof.BodySim Proof.EndToEnd.
+     Proof.Framing Proof.HeadGrammar Proof.HeadSound Proof.ParserHead Proof.ChunkedDecode Proof.ChunkedGrammar Proof.ParserRun Proof.ChunkedReader Proof.BodyFileThm Proof.BodySim Proof.EndToEnd Proof.StreamSound.
 Import ListNotations.
 Local Open Scope N_scope.
 
@@ -141,6 +141,27 @@ Theorem C01_accepted_request_end_to_end : forall c x n p r p1,
 Proof. exact accepted_request_end_to_end. Qed.
 Print Assumptions C01_accepted_request_end_to_end.
 
+(* (a) for a whole connection, any number of pipelined messages, every segmentation: the messages handed over when each
+   body is read to its end ([accepted]: request, body, what follows the message) form a chain of strict readings - each head
+   is a strict head of what follows the previous message, each body is the one the framing rules assign (Content-Length
+   bytes / the chunked decoding), and nothing is parsed behind a message that ends the connection. *)
+Theorem C01_connection_is_a_strict_chain : forall c x, safe_cfg c -> forall fuel n p,
+    NE p -> blen (u_abs p) < maxsize -> chain c (u_abs p) (accepted c x fuel n p).
+Proof. exact accepted_is_a_strict_chain. Qed.
+Print Assumptions C01_connection_is_a_strict_chain.
+Theorem C01_chain_chunked_bodies_are_rfc : forall c r sh D after, r_framing r = FChunked ->
+    body_of c r sh D after -> rfc_chunked sh D after \/ after = [].
+Proof. exact chain_chunked_bodies_are_rfc. Qed.
+(* [accepted] is the connection [run] describes - the function the correspondence check compares with the real parser:
+   run's observation under the read-everything programs is the rendering of the structured trace whose messages are [accepted] *)
+Theorem C01_run_is_the_rendered_trace : forall c x fuel n p,
+    run_conn c x fuel n (repeat [Read None] fuel) p = let '(ms, t) := trace_all c x fuel n p in render ms t.
+Proof. exact run_is_the_rendered_trace. Qed.
+Theorem C01_accepted_are_the_messages_of_the_trace : forall c x fuel n p,
+    accepted c x fuel n p = map (fun m => match m with (r, D, _, after) => (r, D, after) end) (fst (trace_all c x fuel n p)).
+Proof. exact accepted_of_trace. Qed.
+Print Assumptions C01_run_is_the_rendered_trace.
+
 (* ---- non-vacuity ---- *)
 Definition H_TE_gzip_chunked : list header := [(n_te, s_gzip ++ [44; 32] ++ s_chunked)].
 Example accepts_gzip_chunked : set_body_reader H_TE_gzip_chunked (1, 1) = inl (FChunked, true).
@@ -151,3 +172,16 @@ Example vt_chunked_is_unknown : set_body_reader [(n_te, 11 :: s_chunked)] (1, 1)
 Proof. vm_compute. reflexivity. Qed.
 Example cl_with_chunked_instance : cl_with_chunked [(n_cl, [51]); (n_te, s_chunked)].
 Proof. split; [vm_compute; reflexivity|vm_compute; discriminate]. Qed.
+
+(* two pipelined messages: a chunked POST with a trailer, then a GET *)
+Definition ex_pipeline : bytes :=
+  [80;79;83;84;32;47;32;72;84;84;80;47;49;46;49;13;10;
+   84;114;97;110;115;102;101;114;45;69;110;99;111;100;105;110;103;58;32;99;104;117;110;107;101;100;13;10;13;10;
+   53;13;10;104;101;108;108;111;13;10;48;13;10;88;58;32;49;13;10;13;10;
+   71;69;84;32;47;110;32;72;84;84;80;47;49;46;49;13;10;13;10]%N.
+Definition ex_ext1 : ext := {| uri_ok := fun _ => true; inet_ok := fun _ _ => true |}.
+Example ex_pipeline_accepted :
+  map (fun m => match m with (r, D, after) => (r_method r, D, length after) end)
+      (accepted default_cfg ex_ext1 100 1 [firstn 50 ex_pipeline; skipn 50 ex_pipeline])
+  = [([80;79;83;84], [104;101;108;108;111], 19%nat); ([71;69;84], [], 0%nat)].
+Proof. vm_compute. reflexivity. Qed.
